@@ -49,6 +49,24 @@ func DebugE3(c *Ctx, root string) {
 		}
 		return
 	}
+	if root == "xss" {
+		g := buildStateGraph(c.P, env.a, r)
+		xr := &xssRoots{env: env, g: g}
+		t0 := time.Now()
+		xr.runAll(nil)
+		fmt.Printf("all XSS roots: %v\n", time.Since(t0))
+		for _, d := range xr.describe() {
+			fmt.Println("  ", d)
+		}
+		for _, rr := range xr.runs {
+			for _, o := range rr.eng.SortedObs() {
+				if o.Bad > 0 {
+					fmt.Printf("UNPROVEN [%s] %-8s %-28s %-14s %s   [%s] ok=%d bad=%d\n", rr.name, o.Rule, o.Fn, o.Pos, o.Expr, o.Why, o.OK, o.Bad)
+				}
+			}
+		}
+		return
+	}
 	fn := c.P.FuncByQualName(root)
 	if fn == nil {
 		fmt.Println("no function", root)
